@@ -4,8 +4,8 @@ import json
 
 ID = "C01"
 PROP_FILES = ["Properties/C01.v"]
-THEOREMS = ["C01_parse_sound", "C01_parse_complete", "C01_grammar_unambiguous", "C01_no_token_ignored",
-            "C01_fuel_enough", "C01_grouping_transparent", "C01_scan_whitespace"]
+THEOREMS = ["C01_parse_sound", "C01_parse_iff", "C01_grammar_unambiguous", "C01_fuel_enough",
+            "C01_grouping_transparent", "C01_example", "C01_refuted_without_eof_check"]
 ASSUMPTIONS = [
     "formulas are ASCII (str.isalpha/isdigit are Unicode-aware in the implementation)",
     "the scanner/parser procedures are tied by correspondence; their tables by coq/Generated/Tie.v",
